@@ -165,8 +165,10 @@ class JsonDocument(HierDictDocument):
     def validate(self, key, cls, val):
         super(JsonDocument, self).validate(key, cls, val)
 
-        if issubclass(cls, (DateTime, Date, Time)) and not (
-                                    isinstance(val, six.string_types) and
+        # (null is not a string: whether it is acceptable is the business of
+        # the nillable attribute, which is checked with the native value)
+        if val is not None and issubclass(cls, (DateTime, Date, Time)) \
+                        and not (isinstance(val, six.string_types) and
                                                  cls.validate_string(cls, val)):
             raise ValidationError([key, val])
 
